@@ -43,7 +43,7 @@ use emmylua_parser::{
 };
 use hashbrown::HashMap;
 use lsp_types::{Diagnostic, DiagnosticSeverity, DiagnosticTag, NumberOrString};
-use rowan::TextRange;
+use rowan::{TextRange, TextSize};
 use std::sync::Arc;
 
 use crate::{
@@ -215,8 +215,23 @@ impl<'a> DiagnosticContext<'a> {
 
     fn should_report_diagnostic(&self, code: &DiagnosticCode, range: &TextRange) -> bool {
         let diagnostic_index = self.get_db().get_diagnostic_index();
+        let range = self.anchor_range(*range);
 
-        !diagnostic_index.is_file_diagnostic_code_disabled(&self.get_file_id(), code, range)
+        !diagnostic_index.is_file_diagnostic_code_disabled(&self.get_file_id(), code, &range)
+    }
+
+    /// An empty range at the very end of the file stands for the last character, like the
+    /// parser's own end-of-file errors, so that it belongs to the last line and block.
+    fn anchor_range(&self, range: TextRange) -> TextRange {
+        let Some(document) = self.db.get_vfs().get_document(&self.file_id) else {
+            return range;
+        };
+        let len = TextSize::new(document.get_text().len() as u32);
+        if range.is_empty() && range.start() == len && len > TextSize::new(0) {
+            TextRange::new(len - TextSize::new(1), len)
+        } else {
+            range
+        }
     }
 
     fn get_severity(&self, code: DiagnosticCode) -> Option<DiagnosticSeverity> {
